@@ -1,11 +1,9 @@
 ----------------------------- MODULE AuditLogGen -----------------------------
 (* GEN: TLC prints every case as JSON; harness/cmd/auditlog executes them on the real code.
-   Init (cfg AuditLog.GenTamper)  - the tamper cases of AuditLogTamper (C27)
-   InitRT (cfg AuditLog.GenRT)    - the serializer round-trip cases (C27)
-   InitCalls (cfg AuditLog.GenCalls) - every storage.Storage method x {succeeds, fails}: the call
-                                    kinds the C26 workload cycles through *)
+   Init   (cfg AuditLog.GenTamper) - the tamper cases of AuditLogTamper (C27); the same run
+                                     model-checks the design (every case detected)
+   InitRT (cfg AuditLog.GenRT)     - the serializer round-trip cases (C27) *)
 EXTENDS AuditLogTamper, Json
 Emit == PrintT(ToJson(case))
 InitRT == Logs /\ case \in {c \in RTCases : RTCaseOK(c)}
-InitCalls == Logs /\ case \in [m : StorageMethods, fail : BOOLEAN]
 =============================================================================
